@@ -379,21 +379,14 @@ pub fn rlwinm_(
       zeros. All other bits are set to ones.
     */
 
+    // MASK(MB, ME) in IBM bit numbering (bit 0 is the most significant): ones from bit MB through
+    // bit ME, wrapping around from bit 31 to bit 0 when MB > ME.
+    let from_mb: u64 = 0xffff_ffff >> mb;
+    let through_me: u64 = (0xffff_ffff << (31 - me)) & 0xffff_ffff;
     let mask = match mb.cmp(&(me + 1)) {
-        Ordering::Less => {
-            let mb = 32 - mb;
-            let me = 32 - me;
-            let mask = (1 << (mb - me)) - 1;
-            mask << me
-        }
+        Ordering::Less => from_mb & through_me,
         Ordering::Equal => 0xffff_ffff,
-        Ordering::Greater => {
-            let mb = 32 - mb;
-            let me = 32 - me;
-            let mask = (1 << (me - mb)) - 1;
-            let mask = mask << mb;
-            mask ^ 0xffff_ffff
-        }
+        Ordering::Greater => from_mb | through_me,
     };
 
     let block_index = {
